@@ -296,11 +296,19 @@ def crash_signature(problems):
     if m:
         kind = m.group(1)
         frame = '?'
-        for fm in re.finditer(r'#\d+ 0x[0-9a-f]+ in (\S+) ([^\s:]+)', text):
+        generic = None
+        for fm in re.finditer(r'#\d+ 0x[0-9a-f]+ in (\S+) ([^\s:]+)', text.split('allocated by')[0].split('freed by')[0]):
             fn, path = fm.group(1), fm.group(2)
-            if '/tree/' in path or path.startswith(('src/', 'lib/', '../')):
-                frame = fn.split('(')[0]
-                break
+            if 'sanitizer' in path or not ('/tree/' in path or path.startswith(('src/', 'lib/', '../src/', '../lib/'))):
+                continue
+            # generic containers / allocators name nothing: prefer the first frame outside them
+            if re.search(r'/(sbuf|base|mem|compat)/|SquidString|MemBuf|/String\.', path):
+                generic = generic or fn.split('(')[0]
+                continue
+            frame = fn.split('(')[0]
+            break
+        if frame == '?' and generic:
+            frame = generic
         return 'asan:%s:%s' % (kind, frame)
     m = re.search(r'runtime error: (.{0,80})', text)
     if m:
@@ -386,7 +394,12 @@ class UWorld:
             self.sq.settle(rounds)
         except HarnessError as e:
             if 'watchdog' in str(e):
-                raise Hang(str(e)[:300])
+                # a dying Squid can take longer than the watchdog to write its sanitizer report on a loaded machine
+                try:
+                    self.sq.proc.wait(timeout=90)
+                except Exception:
+                    raise Hang(str(e)[:300])
+                raise SquidDied()
             raise
         if not self.sq.alive() or not self.sq.live_slots():
             # the control socket closes a moment before the process can be reaped (ASan is still writing its report)
@@ -716,15 +729,19 @@ def run_shard(ctx, shard, nshards, tier, t_end, replay_cases=None):
         if replay_cases is not None:
             first = []
         tr1 = []
-        for k, case in enumerate(first):
-            tr1.append(run_one(w, case, 900000 + k)[:2])
-        if first:
-            w = fresh()
+        try:
             for k, case in enumerate(first):
-                r = run_one(w, case, 900000 + k)[:2]
-                if r != tr1[k]:
-                    raise HarnessError('nondeterminism: case %s gave different transcripts on two instances:\n%r\n%r' % (describe(case), tr1[k], r))
-            res['determinism_cases'] = len(first)
+                tr1.append(run_one(w, case, 900000 + k)[:2])
+            if first:
+                w = fresh()
+                for k, case in enumerate(first):
+                    r = run_one(w, case, 900000 + k)[:2]
+                    if r != tr1[k]:
+                        raise HarnessError('nondeterminism: case %s gave different transcripts on two instances:\n%r\n%r' % (describe(case), tr1[k], r))
+                res['determinism_cases'] = len(first)
+                w = fresh()
+        except (SquidDied, Hang, NotServed):
+            # Squid failed on one of the first cases: the main loop below meets the same case again and reports it properly
             w = fresh()
         batch = []
         for idx, case in enumerate(mine):
